@@ -14,7 +14,8 @@ Every typed entry point of every reader is `try_(|| …).ctx(self)` or `fail!(in
 before the two C18 `fix:` commits, `EnumDeserializer::deserialize_enum` and
 `FixedSizeListDeserializer::deserialize_seq`: `AnnFixes.all` is the code that exists, `AnnFixes.pinned` the tree
 without those two wrappers.  The un-annotated model (`Reader.readAs`, the subject of the C02 / C17 theorems) is what is left when
-annotations are dropped (`eraseAnn`): NOT proved, checked on every read of every run by the `readann` suite.
+annotations are dropped (`eraseAnn`): proved (`eraseAnn_readAnyA`, `eraseAnn_readAsA`, `eraseAnn_readRecordA` in Props/C18.lean),
+and still evaluated on every read of every run by the `readann` suite.
 -/
 namespace SaModel.Read
 open SaModel
